@@ -383,7 +383,7 @@ class C20(Prop):
             cfg["copy"] = r.choice(["clone", "roundtrip"])
         else:
             cfg["source"] = "example"
-            cfg["fmt"] = r.choice(["edf", "edf", "v"])
+            cfg["fmt"] = r.choice(["edf", "edf", "v", "v", "eblif"])
             cfg["example"] = r.choice(corpus.names(cfg["fmt"], 12000 if tier == "quick" else 70000))
             cfg["copy"] = r.choice(["clone", "reparse", "roundtrip"])
         cfg["chunk_law"] = r.choice(["whole", "1..64"])
